@@ -34,6 +34,9 @@ class Firing:
         if isinstance(fn, str):
             return fn
         fn = getattr(fn, "fn", fn)  # WeakPartial / debug wrappers
+        if type(fn).__name__ == "PartialDefault":  # the registry's fall-back wrapper: name it by the wrapped default, not by its address
+            d = getattr(fn, "default", None)
+            return "default:%s.%s" % (getattr(d, "__module__", "?"), getattr(d, "__qualname__", getattr(d, "__name__", type(d).__name__)))
         return "%s.%s" % (getattr(fn, "__module__", "?"), getattr(fn, "__qualname__", getattr(fn, "__name__", repr(fn))))
 
 
